@@ -653,11 +653,15 @@ GenCheckpoint ==
 StutterViol == IF Gen THEN {}
                ELSE IF wl' # wl \/ ini' # ini \/ notes' # notes THEN {"C14_Stutter"} ELSE {}
 
+\* dry runs and refused operations may take the implicit human checkpoint a real run would take first (that is
+\* checkpoint frequency, C14: judged by what the next commit records); they must not touch notes or INITIAL
+DryViol == IF Gen THEN {}
+           ELSE IF ini' # ini \/ notes' # notes THEN {"C02_AbortNoop"} ELSE {}
 ReadOnly(cmd) ==
   /\ Guard(NoAgentDirty)
   /\ GitAdopt(SameG) /\ AiSame(SameG)
   /\ UNCHANGED <<truth, nu, der, dirty, stash, snote, ops>>
-  /\ Step2([a |-> "ReadOnly", cmd |-> cmd], StutterViol)
+  /\ Step2([a |-> "ReadOnly", cmd |-> cmd], IF cmd = "dryrun" THEN DryViol ELSE StutterViol)
 
 \* the same checkpoint again, right after the original one
 CkptRepeat ==
